@@ -136,7 +136,8 @@ def replay_chain(data: dict[str, Any]) -> tuple[bool, str]:
 # ---------------------------------------------------------------------------
 # (b) per-object tool graphs
 
-STATE_TOOLS = ["check", "get", "set", "unset", "push", "pop"]
+STATE_TOOLS = ["check", "get", "set", "unset", "push", "pop", "create", "clean", "collect"]
+ACTION_OF = {"create": "set", "clean": "unset", "collect": "get"}
 VM_TOOLS = {"boot": "start", "shutdown": "stop"}
 
 
@@ -159,7 +160,7 @@ def tool_monitor(run: Any) -> list[Any]:
         if sc.tool in STATE_TOOLS:
             if len(vms) != 1:
                 out.append((f"C20 {sc.name} not per vm", f"{sc.tool} executed one test for several vms {vms}", {}))
-            if e["params"].get("vm_action") != sc.tool:
+            if e["params"].get("vm_action") != ACTION_OF.get(sc.tool, sc.tool):
                 out.append((f"C20 {sc.name} wrong action", f"{sc.tool} executed a test with vm_action={e['params'].get('vm_action')}", {}))
             for k, v in sc.params.items():
                 if e["params"].get(k) != v:
@@ -173,6 +174,13 @@ def tool_monitor(run: Any) -> list[Any]:
                 out.append((f"C20 {sc.name} wrong test", f"{sc.tool} executed {e['shortname']}", {}))
             key = (e["worker"], "*")
             seen[key] = seen.get(key, 0) + 1
+    # a failing step reports failure to the chain (return code 1), a passing one 0
+    by_name: dict[str, list[str]] = {}
+    for e in starts:
+        by_name.setdefault(e["name"], []).append(e.get("status"))
+    failed = any(not any(s in trav.OK_STATUSES for s in sts) for sts in by_name.values())
+    if (run.tool_result not in (None, 0)) != failed:
+        out.append((f"C20 {sc.name} return value", f"{sc.tool} returned {run.tool_result!r} although {'a test failed' if failed else 'every test passed'}: the chain would report {'success' if run.tool_result in (None, 0) else 'failure'}", {}))
     expected = [(w, vm) for w in workers for vm in selected] if sc.tool in STATE_TOOLS else [(w, "*") for w in workers]
     for key in expected:
         n = seen.get(key, 0)
@@ -199,9 +207,11 @@ def plans(tier: str) -> list[dict[str, Any]]:
         P("get on vm1 vm2, 2 workers", trav.ToolScenario("t-get", "get", nets="net1 net2", vm_strs=vm12, params={"get_state_images": "customize"}), m, K=1, statuses=["PASS", "FAIL"], max_nonpass=1, pool_fixed={"customize": ["own", "shared"]}),
         P("unset on vm1, 2 workers", trav.ToolScenario("t-unset", "unset", nets="net1 net2", vm_strs=vm1, params={"unset_state_images": "customize"}), m, K=1, statuses=["PASS"]),
         P("boot vm1 vm2, 1 worker", trav.ToolScenario("t-boot", "boot", nets="net1", vm_strs=vm12), m, K=1, statuses=["PASS", "FAIL"], max_nonpass=1),
+        P("create vm1, 2 workers, one failure", trav.ToolScenario("t-create", "create", nets="net1 net2", vm_strs=vm1), m, K=1, statuses=["PASS", "FAIL"], max_nonpass=1),
         P("boot vm2(Win7) vm3 on net1 net5 net2 (net5 excludes Win7)", _restricted("t-boot-net5", "boot"), m, K=1, statuses=["PASS"]),
     ]
     if tier == "thorough":
+        out.append(P("clean vm1, 1 worker, one failure", trav.ToolScenario("t-clean", "clean", nets="net1", vm_strs=vm1), m, K=1, statuses=["PASS", "FAIL"], max_nonpass=1))
         for tool in ("check", "set", "push", "pop"):
             out.append(P(f"{tool} on vm1 vm2, 2 workers", trav.ToolScenario(f"t-{tool}", tool, nets="net1 net2", vm_strs=vm12, params={f"{tool}_state_images": "customize"}), m, K=1, statuses=["PASS", "FAIL"], max_nonpass=1, pool_fixed={"customize": ["own", "shared"]}))
         out.append(P("shutdown vm2(Win7) vm3 on net1 net5 net2", _restricted("t-shutdown-net5", "shutdown"), m, K=1, statuses=["PASS"]))
